@@ -24,29 +24,29 @@ PROPS = {
     "C01": dict(fam=["core1", "tandem", "prio", "cls", "renege", "route", "preempt", "sched", "schedpre", "slot", "ccw"],
                 mc=["core1", "tandem", "tri", "cls", "renege", "schedpre", "slot", "ccw", "jockey", "infblock", "renegesched"], inv=["Inv_C01"], step=["Step_C01"]),
     "C02": dict(fam=["core1", "tandem", "prio", "renege", "cls", "schedblock", "slotren", "preblock"],
-                mc=["core1", "tandem", "renege", "prio", "renegesched", "slotpre", "infblock"], inv=[], step=["Step_C02"]),
+                mc=["core1", "tandem", "renege", "prio", "renegesched", "slotpre", "infblock", "slotren"], inv=[], step=["Step_C02"]),
     "C03": dict(fam=["tandem", "route", "cls", "renege", "prio", "schedblock", "infblock", "preblock", "jockey"],
-                mc=["tandem", "tri", "route", "cls", "jockey", "infblock"], inv=["Inv_C03"], step=["Step_C03"]),
+                mc=["tandem", "tri", "route", "cls", "jockey", "infblock", "overblock"], inv=["Inv_C03"], step=["Step_C03"]),
     "C06": dict(fam=["core1", "tandem", "renege"], mc=["core1", "tandem", "jockey"], inv=["Inv_C06"], step=["Step_C06"]),
-    "C07": dict(fam=["tandem", "cls", "route", "preblock", "infblock", "overblock", "ppblock", "slotblock"], mc=["tandem", "tri", "cls", "infblock"], inv=["Inv_C07"], step=["Step_C07"]),
+    "C07": dict(fam=["tandem", "cls", "route", "preblock", "infblock", "overblock", "ppblock", "slotblock"], mc=["tandem", "tri", "cls", "infblock", "overblock", "slotblock", "ppblock"], inv=["Inv_C07"], step=["Step_C07"]),
     "C10": dict(fam=["core1", "tandem", "prio", "renege", "fault", "jockey"], mc=["core1", "tandem", "prio", "jockey", "slotpre"],
                 inv=["Inv_C10"], step=["Step_C10"]),
     "C04": dict(fam=["tandem", "prio", "preempt", "sched", "schedpre", "core1", "schedblock", "preblock", "ppzero"],
-                mc=["tandem", "preempt", "sched", "schedpre", "ppsched", "jsqsched"], inv=["Inv_C04"], step=["Step_C04"]),
-    "C12": dict(fam=["sched", "schedpre", "slot", "slotpre", "slotren", "preblock", "ppsched", "ppzero", "slotblock"], mc=["sched", "schedpre", "slot", "ppsched", "slotpre", "renegesched"], inv=["Inv_C12"], step=["Step_C12"]),
+                mc=["tandem", "preempt", "sched", "schedpre", "ppsched", "jsqsched", "overblock"], inv=["Inv_C04"], step=["Step_C04"]),
+    "C12": dict(fam=["sched", "schedpre", "slot", "slotpre", "slotren", "preblock", "ppsched", "ppzero", "slotblock"], mc=["sched", "schedpre", "slot", "ppsched", "slotpre", "renegesched", "slotblock", "slotren"], inv=["Inv_C12"], step=["Step_C12"]),
     "C05": dict(fam=["core1", "tandem", "prio", "preempt", "renege", "cls", "sched", "schedpre", "ccw"],
                 mc=["core1", "tandem", "prio", "preempt", "renege", "sched", "schedpre", "ppsched", "renegesched"], inv=["Inv_C05"], step=["Step_C05"]),
     "C08": dict(fam=["prio", "preempt", "cls", "renege", "ccw", "sched", "slot"], mc=["prio", "preempt", "cls", "ccw", "slot", "ppsched", "slotpre"], inv=[], step=["Step_C08"]),
     "C09": dict(fam=["route", "cls", "jsqsched", "tandem", "prio"], mc=["route", "cls", "tandem", "jsqsched", "jockey"], inv=["Inv_C09"], step=["Step_C09"]),
     "C11": dict(fam=["preempt", "ppccw"], mc=["preempt", "ppccw"], inv=["Inv_C11"], step=["Step_C11"]),
-    "C13": dict(fam=["renege", "core1", "jockey", "slotren", "renegesched"], mc=["renege", "jockey", "renegesched"], inv=["Inv_C13"], step=["Step_C13"]),
+    "C13": dict(fam=["renege", "core1", "jockey", "slotren", "renegesched"], mc=["renege", "jockey", "renegesched", "slotren"], inv=["Inv_C13"], step=["Step_C13"]),
     "C16": dict(fam=["pause"], mc=["pause"], inv=["Inv_C04", "Inv_C01"], step=["Step_C16"]),
     "C17": dict(fam=["trk", "trkccw"], mc=["trk", "dead"], inv=["Inv_C17"], step=["Step_C17"]),
     "C18": dict(fam=["dead", "dead3"], mc=["dead"], inv=["Inv_C18"], step=["Step_C18"]),
     "C19": dict(fam=["ps", "psfifo"], mc=["ps"], inv=["Inv_C19"], step=["Step_C19"]),
     "C20": dict(fam=["exact", "eps"], mc=["exact"], inv=[], step=["Step_C20"]),
     "C14": dict(fam=["stopcount", "ppblock", "slotpreblock", "core1", "tandem", "prio", "cls", "renege", "route", "preempt"],
-                mc=["core1", "stopcount", "renegesched", "jsqsched"], inv=[], step=["Step_C14"]),
+                mc=["core1", "stopcount", "renegesched", "jsqsched", "ppblock"], inv=[], step=["Step_C14"]),
 }
 
 ALLFAM = ["mix", "mix", "mix", "ppccw", "eps", "slotren", "preblock", "overblock", "trkccw", "ppblock", "ppzero", "slotblock", "slotpreblock", "pause", "date0", "jsqsched", "dead3", "jockey", "slotpre", "renegesched", "schedblock", "infblock", "ppsched", "ps", "core1", "tandem", "prio", "preempt", "cls", "clsren", "renege", "route", "sched", "schedpre", "schedblock",
